@@ -265,6 +265,33 @@ def annot_list(s):
     return None
 
 
+def imm_direct_spec():
+    """`imm_direct`, read off anf_imm's direct arms `PATTERN => k(IMM)`: which operands are handed to the continuation without a let, and as what"""
+    from vlib import gen
+    from vlib.rsitems import mask, match_delim
+    src = gen.load_source(A)
+    s0, b0, e0 = src.find_fn("anf_imm", None)
+    body = src.text[b0:e0 + 1]
+    m = mask(body)
+    arms = []
+    for mt in re.finditer(r"(LiftExpr::\w+\s*\{[^{}]*\})\s*(?:if\s+([^=]+?))?\s*=>\s*k\(", m):
+        op = mt.end() - 1
+        cl = match_delim(m, op)
+        pat = body[mt.start(1):mt.end(1)]
+        guard = body[mt.start(2):mt.end(2)].strip() if mt.group(2) else ""
+        if guard:
+            g2 = re.sub(r"\b(\w+)\.is_empty\(\)", r"\1@.len() == 0", guard)
+            if "(" in re.sub(r"@\.len\(\)", "", g2):
+                raise AnchorLost(f"anf_imm: guard `{guard}` of a direct arm has no spec form")
+            guard = " if " + g2
+        arg = spec_text(body[op + 1:cl]).replace(".enum_index()", ".index_of()")
+        arms.append(f"        {pat}{guard} => Some({arg}),")
+    if not arms:
+        raise AnchorLost("anf_imm: no direct arm `PATTERN => k(IMM)` found")
+    return ("// DERIVED from anf_imm's direct arms on every run\npub open spec fn imm_direct(e: LiftExpr) -> Option<ImmExpr> {\n    match e {\n"
+            + "\n".join(arms) + "\n        _ => None,\n    }\n}\n")
+
+
 RULES = ["attrs", ("strip", "common_defs::")]
 K_REQ = {"anf": "CExpr", "anf_imm": "ImmExpr", "anf_list": "Vec<ImmExpr>"}
 
@@ -283,6 +310,8 @@ UNIT = Unit(
              "compile_match_arms_to_anf is a stub with an ASSUMED contract here (k called once on an EMatch over the given scrutinee whose arms / default are normal forms "
              "of the source arms, in order)",
              "termination of anf / anf_imm / anf_list is not proved (exec_allows_no_decreases_clause): the recursion goes through closures and slices",
+             "the spec function imm_direct (which operands anf_imm hands on without a let, and as what) is DERIVED from anf_imm's direct arms `PATTERN => k(IMM)` on every run; "
+             "the property-level demand on it is the lemma imm_direct_sound",
              "the `ty` stored on a generated let (AExpr::get_ty) and freshness of the generated names (C19, U-GENSYM) are not part of this contract",
              "`&args` (a Vec handed on as a slice) is read as `args.as_slice()`, `&es[1..]` as vstd's slice_subrange(es, 1, es.len())"],
     items=[
@@ -294,6 +323,7 @@ UNIT = Unit(
         Adt(file=A, kw="enum", name="AExpr", rules=["attrs"]),
         Adt(file=A, kw="struct", name="Arm", rules=["attrs"]),
         Raw(path="contracts/anf.shim.rs"),
+        Raw(text=imm_direct_spec, item="crates/compiler/src/anf.rs::anf_imm direct arms (imm_direct)"),
         Fn(file=L, name="get_ty", container="LiftExpr", ret="r", rewrites=[(re.compile(r"=> ty\.clone\(\),"), "=> ty.vclone(),", "*")],
            contract="ensures r == lift_ty(*self),", obligation="get_ty returns the carried type"),
         Fn(file=A, name="compile_match_arms_to_anf", ret="r", contract_only=True, rules=RULES + [("cps", lambda s: {"after": ""} if s.kind != "closure" else {"types": ["CExpr"], "ensures": "true"})],
